@@ -305,9 +305,12 @@ async def run_c17(spec: dict[str, Any], hist: History, tr: Tracker) -> None:
             if not s.alive:
                 continue
             how = rng.choice(['close', 'logout', 'other', 'examine', 'eof',
-                              'reset', 'failed-select'])
+                              'reset', 'failed-select', 'idle-eof',
+                              'idle-reset'])
             if tr.cur.get(s.conn.cid) is None and how == 'close':
                 how = 'logout'
+            if tr.cur.get(s.conn.cid) is None and how.startswith('idle-'):
+                how = how[5:]           # IDLE needs a selection
             ended.append(how)
             tr.harvest(s)
             s.retired = True            # type: ignore[attr-defined]
@@ -328,6 +331,14 @@ async def run_c17(spec: dict[str, Any], hist: History, tr: Tracker) -> None:
                     await s.cmd(b'LOGOUT')
             elif how == 'eof':
                 s.conn.feed_eof()
+            elif how in ('idle-eof', 'idle-reset'):
+                # the connection is lost while it idles
+                if await s.idle_begin():
+                    await loop.quiescent()  # type: ignore[attr-defined]
+                if how == 'idle-eof':
+                    s.conn.feed_eof()
+                else:
+                    s.conn.hard_reset()
             else:
                 s.conn.hard_reset()
             if how != 'examine':
